@@ -42,7 +42,7 @@ func init() {
 		if fd := funcDecl(nm, "NodesManager", "snapshot"); fd == nil || norm(fd.Body) != "{returnjson.Marshal(this.clusterConn.Nodes())}" {
 			snap = false
 		}
-		if fd := funcDecl(nm, "NodesManager", "processSnapshot"); fd == nil || !strings.Contains(norm(fd.Body), "forid,_:=rangethis.clusterConn.Nodes(){if_,exists:=nodes[id];!exists&&id!=this.clusterConn.Id(){this.clusterConn.RemoveNode(id)}}forid,address:=rangenodes{this.clusterConn.AddNode(id,address)}") {
+		if fd := funcDecl(nm, "NodesManager", "processSnapshot"); fd == nil || !strings.Contains(norm(fd.Body), "if_,listsMe:=nodes[this.clusterConn.Id()];listsMe{forid,_:=rangethis.clusterConn.Nodes(){if_,exists:=nodes[id];!exists&&id!=this.clusterConn.Id(){this.clusterConn.RemoveNode(id)}}}forid,address:=rangenodes{this.clusterConn.AddNode(id,address)}") {
 			snap = false
 		}
 		sv := parseFile("server.go")
@@ -54,7 +54,7 @@ func init() {
 		if fd := funcDecl(sg, "sharedGroup", "snapshot"); fd == nil || !strings.Contains(norm(fd.Body), "for_,proxy:=rangethis.proxies{ifproxy.snapshotFn!=nil{proxySnapshots[proxy.name],err=proxy.snapshotFn()") {
 			snap = false
 		}
-		o.def("bookTravelsWithSnapshot", "Bool", lbool(snap), "the address book is a consumer of the zero group's snapshot: saved with it, and restored (replacing everything but the node itself) when a snapshot is installed")
+		o.def("bookTravelsWithSnapshot", "Bool", lbool(snap), "the address book is a consumer of the zero group's snapshot: saved with it, and restored when a snapshot is installed — a snapshot that lists this node replaces everything but the node itself, one that does not (cut before the node joined) only adds")
 		if fd := funcDecl(nm, "NodesManager", "AddNode"); fd != nil {
 			s := norm(fd.Body)
 			ack = strings.Contains(s, "if_,known:=this.clusterConn.Nodes()[id];known{this.clusterConn.AddNode(id,address)}") &&
